@@ -813,3 +813,16 @@ Qed.
 Lemma user_msg_masked :
   redact_msgs all_random [MUser wit_text] = Ok ([MUser wit_text_masked], 1).
 Proof. vm_compute. reflexivity. Qed.
+
+Lemma mask_hides_all t :
+  forallb is_secret_char t = true -> admissible (len t) = true ->
+    redact_secret t = Ok (mask t)
+    /\ ~ infix t (mask t)
+    /\ len (mask t) = mask_len
+    /\ forall p m m' q, length p = vis -> length q = vis -> mask (p ++ m ++ q) = mask (p ++ m' ++ q).
+Proof.
+  intros Hall Hadm. split; [apply redact_secret_mask; assumption|].
+  split; [apply mask_no_verbatim; assumption|]. split.
+  - apply mask_length. pose proof (admissible_long _ Hadm). pose proof vis_eq. unfold len in *. lia.
+  - intros. apply mask_hides_middle; assumption.
+Qed.
